@@ -24,8 +24,8 @@ for arg in sys.argv[1:]:
 props = ["C%02d" % i for i in range(1, 21)]
 lines = ["# Detection matrix: seeded changes x quick checks (seed 1)", "",
          "`X` = the check reported a VIOLATION (exit 1) on the tree with the change applied; `.` = silent; `?` = inconclusive (exit 2); blank = not run.",
-         "Rows: `Cxx a,b` round 1, `c,d` round 2 (dynamic defects), `e,f` round 3 (unusual inputs), `g,h` round 4 (meant to survive randomized testing), `i,j` round 5 (the circumstances of a call: context, in-flight operations, shared hidden state, rare type shapes). The property the change was aimed at is the row's prefix.",
-         "Rows a-f: every cell was measured with the harness as it was at the end of round 3; the cell of the targeted property was measured again with the final harness. Rows g,h: every cell with the final harness of round 4, their target cell again with the final harness. Rows i,j: every cell with the final harness.", "",
+         "Rows: `Cxx a,b` round 1, `c,d` round 2 (dynamic defects), `e,f` round 3 (unusual inputs), `g,h` round 4 (meant to survive randomized testing), `i,j` round 5 (the circumstances of a call: context, in-flight operations, shared hidden state, rare type shapes), `k,l` round 6 (a timeboxed mini-round for six properties). The property the change was aimed at is the row's prefix.",
+         "Rows a-f: every cell was measured with the harness as it was at the end of round 3; the cell of the targeted property was measured again with the final harness. Rows g,h: every cell with the final harness of round 4, their target cell again with the final harness. Rows i,j: every cell with the harness of round 5. Rows k,l: every cell with the final harness.", "",
          "| seed | " + " | ".join(p[1:] for p in props) + " | caught by target | caught by any |", "|---|" + "---|" * (len(props) + 2)]
 tot = tgt = anyc = 0
 for sid in sorted(rows):
